@@ -179,6 +179,34 @@ fn main() {
     let a: Vec<String> = std::env::args().collect();
     match a[1].as_str() {
         "window" => window(&a[2], a[3].parse().unwrap()),
+        // fold <binary|unary> <Op> <Lclass> <L> [<Rclass> <R>] <x_present 0|1> <xclass> <x>: fold the expression with the real optimizer
+        // (fold_program on a one-statement program) and evaluate folded and unfolded against the same event
+        "fold" => {
+            use varpulis_core::ast::{Program, Stmt};
+            use varpulis_core::span::{Span, Spanned};
+            let mk = |c: &str, p: &str| -> Expr { if c == "Ident" { Expr::Ident("x".into()) } else { lit(c, p).0 } };
+            let (e, rest) = if a[2] == "binary" {
+                (Expr::Binary { op: binop(&a[3]), left: Box::new(mk(&a[4], &a[5])), right: Box::new(mk(&a[6], &a[7])) }, &a[8..])
+            } else {
+                (Expr::Unary { op: match a[3].as_str() { "Neg" => UnaryOp::Neg, "Not" => UnaryOp::Not, _ => UnaryOp::BitNot }, expr: Box::new(mk(&a[4], &a[5])) }, &a[6..])
+            };
+            let mut ev = Event::new("T");
+            if rest[0] == "1" {
+                let v = match rest[1].as_str() { "Int" | "Float" | "Bool" | "Null" => lit(&rest[1], &rest[2]).1, "Str" => Value::Str("s".into()),
+                    "Timestamp" => Value::Timestamp(5), "Duration" => Value::Duration(7), "Array" => Value::array(vec![Value::Int(1)]),
+                    "Map" => Value::map(Default::default()), c => panic!("class {c}") };
+                ev = ev.with_field("x", v);
+            }
+            let folded = panic::catch_unwind(|| {
+                let p = varpulis_parser::optimize::fold_program(Program { statements: vec![Spanned::new(Stmt::Expr(e.clone()), Span::new(0, 0))] });
+                match &p.statements[0].node { Stmt::Expr(f) => f.clone(), _ => panic!("statement kind changed") }
+            });
+            let folded = match folded { Ok(f) => f, Err(_) => { println!("REPRODUCED constant folding of {:?} panics", e); std::process::exit(1); } };
+            let ctx = SequenceContext::new();
+            let (r1, r2) = (eval_filter_expr(&e, &ev, &ctx), eval_filter_expr(&folded, &ev, &ctx));
+            if r1 == r2 { println!("OK {:?} folds to {:?}; both evaluate to {:?}", e, folded, r1); }
+            else { println!("REPRODUCED {:?} evaluates to {:?} but its folded form {:?} evaluates to {:?} (event {:?})", e, r1, folded, r2, ev.data); std::process::exit(1); }
+        }
         "breaker" => breaker(&a[2..]),
         // recurse <ExprVariant>: evaluate an expression of that variant in a child process (a stack overflow aborts the process)
         "recurse" => {
